@@ -356,3 +356,21 @@ func VH_C17_release_after_delete(linear, ttl int) {
 	vassert(err == nil, "acknowledged-write-visible-to-later-request")
 	vreach("end")
 }
+
+// VH_C17_ghost_parent: with existence checking, a created location names a parent that was
+// never created. Whatever the child's inherited search does with that parent, requests
+// addressed to the parent itself keep failing (and do not create it), under every TTL.
+func VH_C17_ghost_parent(linear, ttl int) {
+	vsetNow(vhBase)
+	sys, ctx := vhSystem("G", ttl, true, linear == 1)
+	_, err := sys.CreateLocation(ctx.SubContext(), "child")
+	vassume(err == nil)
+	_, err = sys.SetParents(ctx.SubContext(), "child", []string{"ghost"})
+	vassume(err == nil)
+	sys.SearchFacts(ctx.SubContext(), "child", `{"a":"?x"}`, true)
+	_, err = sys.AddFact(ctx.SubContext(), "ghost", "k", `{"a":"1"}`)
+	vassert(err != nil, "never-created-location-fails")
+	_, err = sys.GetFact(ctx.SubContext(), "ghost", "k")
+	vassert(err != nil, "never-created-location-fails")
+	vreach("end")
+}
